@@ -230,29 +230,54 @@ def rule_transcript(ctx):
         for n in own_nodes(f.node):
             if isinstance(n, ast.Assign) and any(attr_chain(t) == "self._handshake_hash" for t in n.targets):
                 repl.append((f, n))
+    def fresh(f, n):
+        """the assigned value is a HandshakeHashes() created in this function (directly or via a local)"""
+        if norm(n.value) == "HandshakeHashes()":
+            return True
+        if isinstance(n.value, ast.Name):
+            ds = [x for x in own_nodes(f.node) if isinstance(x, ast.Assign) and len(x.targets) == 1
+                  and isinstance(x.targets[0], ast.Name) and x.targets[0].id == n.value.id]
+            return len(ds) == 1 and norm(ds[0].value) == "HandshakeHashes()"
+        return False
     for f, n in repl:
-        ok = f.name in ("_clientGetServerHello", "_serverGetClientHello", "_handshakeStart") and \
-            norm(n.value) == "HandshakeHashes()"
+        ok = f.name in ("_clientGetServerHello", "_serverGetClientHello", "_handshakeStart") and fresh(f, n)
         ctx.check(R, ok, f.qname, n, "the running transcript is replaced outside the HelloRetryRequest "
                   "message_hash restart / handshake start", f.loc(n))
     for q in (TLSCONN + "_clientGetServerHello", TLSCONN + "_serverGetClientHello"):
         f = ctx.index.func(q)
         gq_ = ctx.an.cfg(f)
-        rs = [n for n in gq_.nodes if n.kind == "stmt" and norm(n.ast) == "self._handshake_hash = HandshakeHashes()"]
-        seq = []
+        # T: what the fresh transcript object is called while it is being filled
+        rs = [n for n in gq_.nodes if n.kind == "stmt" and isinstance(n.ast, ast.Assign)
+              and norm(n.ast.value) == "HandshakeHashes()"]
+        ok = False
         if rs:
+            T = norm(rs[0].ast.targets[0])
+            seq = []
             cur = rs[0]
-            for _ in range(6):
+            for _ in range(8):
                 nx = gq_.normal_succ(cur)
                 if len(nx) != 1:
                     break
                 cur = nx[0]
-                seq.append(norm(cur.ast) if cur.ast is not None else "")
-        shape = [s for s in seq if s.startswith("writer") or "_handshake_hash.update" in s]
-        ok = len(shape) >= 4 and shape[0] == "writer = Writer()" and \
-            shape[1] == "writer.add(HandshakeType.message_hash, 1)" and \
-            re.match(r"writer\.addVarSeq\(client_hello_hash(\.digest\(prf_name\))?, 1, 3\)", shape[2]) and \
-            shape[3] == "self._handshake_hash.update(writer.bytes)"
+                if cur.ast is not None:
+                    seq.append(cur.ast)
+            W = None
+            st = 0
+            hashed = None
+            for a_ in seq:
+                t_ = norm(a_)
+                if st == 0 and isinstance(a_, ast.Assign) and norm(a_.value) == "Writer()" and isinstance(a_.targets[0], ast.Name):
+                    W, st = a_.targets[0].id, 1
+                elif st == 1 and t_ == "%s.add(HandshakeType.message_hash, 1)" % W:
+                    st = 2
+                elif st == 2 and isinstance(a_, ast.Expr) and isinstance(a_.value, ast.Call) \
+                        and norm(a_.value.func) == "%s.addVarSeq" % W and [norm(x) for x in a_.value.args[1:]] == ["1", "3"]:
+                    hashed, st = norm(a_.value.args[0]), 3
+                elif st == 3 and t_ == "%s.update(%s.bytes)" % (T, W):
+                    st = 4
+            installed = T == "self._handshake_hash" or any(
+                isinstance(a_, ast.Assign) and norm(a_) == "self._handshake_hash = %s" % T for a_ in seq)
+            ok = st == 4 and installed and re.match(r"client_hello_hash(\.digest\(prf_name\))?$", hashed or "")
         ctx.check(R, bool(ok), f.qname, "HRR transcript restart = message_hash || len || Hash(ClientHello1)",
                   "the synthetic message_hash transcript after HelloRetryRequest is not built as "
                   "message_hash(254) || 3-byte length || Hash(ClientHello1)", f.loc(rs[0].ast) if rs else f.loc())
